@@ -187,3 +187,22 @@ check('C09', 'E1+E2', 'model_checking',
       'emit counts capped (3-4 on "/", 1 on "/a"); threaded client message '
       'tasks run to completion in arrival order.',
       'DESIGN.md 6/C09')
+
+check('C20', 'E3', 'model_checking',
+      'stateless schedule exploration of real threads under a baton '
+      'scheduler (preemption-bounded DFS)',
+      'One transport connected to two namespaces; every pair of terminating '
+      'causes (server.disconnect, client DISCONNECT, transport loss, '
+      'disconnect of the sibling namespace, incl. the same cause twice) runs '
+      'as real threads with a scheduling point before every call the server '
+      'makes into the client manager and the transport layer and inside the '
+      'handler: all schedules with <= 3 preemptions (quick) / all schedules '
+      '(thorough), triples with <= 3 preemptions, and line-level points in '
+      'server.py/base_manager.py/manager.py with <= 2 preemptions. Oracle: '
+      'handler exactly once per sid, no exception escapes a thread, no trace '
+      'of the sid afterwards. Each violating schedule is classified by the '
+      'window that let the terminators overlap, so the known check-then-mark '
+      'window does not mask other causes.',
+      'GIL atomicity of single bytecodes; bidict C code not preempted; '
+      'engine.io trusted.',
+      'DESIGN.md 6/C20')
